@@ -14,6 +14,8 @@ from pycoin.encoding.exceptions import EncodingError
 from pycoin.contrib import bech32m
 from pycoin.networks import parseable_str as ps
 
+from gen import subproc
+
 PROPERTY = "C11"
 ASSUMPTIONS = ["oracles/refenc.py (Base58/Base58Check/Bech32/Bech32m written from the BIPs, calibrated on BIP173/BIP350 "
                "valid+invalid vectors and the Base58Check wiki example)", "hashlib SHA256"]
@@ -503,6 +505,9 @@ SUBCHECKS = [
              rule="byte strings whose value is m*58^k + d, k = 0..40, m in {1,2,57,58,59}, d in {0,1,57,58}: encoder == reference and round trip"),
     SubCheck("b58check_corruption", o_b58check_corrupt, strategy=s_b58check_corrupt, budget=(4000, 400000),
              rule="valid Base58Check strings with 1-4 corrupted checksum bytes or characters; expected verdict = checksum recomputed by the reference over the corrupted string (exact)"),
+    SubCheck("b58check_corruption_python_O", subproc.optimized_variant("checks.c11_codecs", "o_b58check_corrupt"), strategy=s_b58check_corrupt, budget=(400, 20000),
+             rule="the b58check_corruption cases evaluated in a child interpreter started with PYTHONOPTIMIZE=1 (python -O: assert statements are "
+                  "compiled away, so validation written as an assert vanishes; the child asserts that mode)"),
     SubCheck("bech32_triples", o_bech32_triple, strategy=triples, budget=(4000, 400000), nontrivial=nt_triple,
              rule="(hrp, version 0-17, program 0-42 bytes): encode == reference (None when BIP173/350 forbid), decode inverse, upper-case form, parseable_str cache; non-trivial = allowed triple"),
     SubCheck("bech32_corruptions", o_bech32_corrupt, strategy=s_bech32_corrupt, budget=(6000, 600000),
@@ -513,6 +518,9 @@ SUBCHECKS = [
     SubCheck("bech32_invalid_classes", o_bech32_invalid, strategy=s_bech32_invalid, budget=(4000, 200000),
              nontrivial=lambda c, l: not any(x.startswith("skip") for x in l),
              rule="correctly checksummed strings with wrong constant for the version, non-zero or >4-bit padding, mixed case, forbidden program length, version > 16, empty data"),
+    SubCheck("bech32_invalid_classes_python_O", subproc.optimized_variant("checks.c11_codecs", "o_bech32_invalid"), strategy=s_bech32_invalid, budget=(400, 20000),
+             rule="the bech32_invalid_classes cases evaluated in a child interpreter started with PYTHONOPTIMIZE=1 (python -O: assert statements are "
+                  "compiled away, so validation written as an assert vanishes; the child asserts that mode)"),
     SubCheck("bech32_arbitrary", o_bech32_arbitrary, strategy=s_bech32_arbitrary, budget=(3000, 300000),
              rule="arbitrary 5-bit symbol strings under a known hrp, checksummed with the Bech32 / Bech32m / a foreign constant or not at all: accept <=> reference decoder accepts, and same (version, program)"),
 ]
